@@ -90,6 +90,9 @@ def build_jobs(tier, rep):
         jobs.append((cfgs[k % len(cfgs)], "render", d + "\n\n[r]: /u \"t<\"\n"))
     # every inline-fragment document: one representative per distinct tag structure
     sj = [(cfgs[(0, 2, 5)[k % 3]], "render", d) for k, d in enumerate(l2)]
+    # every string of up to three characters of L0 (NBSP, NUL, CR, emoji, ... next to the markers)
+    l0 = [d for d in gen.docs("L0", tier, rep) if len(d) <= 3]
+    jobs += [(cfgs[k % len(cfgs)], "render", d) for k, d in enumerate(l0)]
     ld = gen.docs("LD", tier, rep, wrapname="WrapD")
     sj += [(cfgs[(0, 5)[k % 2]], "render", d) for k, d in enumerate(ld)]
     sk = C.pmap(skeleton_job, sj, chunk=2000)
